@@ -26,6 +26,7 @@ import (
 	"strings"
 
 	"golang.org/x/tools/go/ssa"
+	"golang.org/x/tools/go/ssa/ssautil"
 )
 
 func init() { register("C15", checkC15) }
@@ -82,7 +83,7 @@ func checkC15(ctx *Ctx, r *Report, tier string) {
 		file := ctx.Fset.Position(gs.instr.Pos()).Filename
 		return strings.HasSuffix(file, "/svg.go") || strings.HasSuffix(file, "/dxf.go") || strings.HasSuffix(file, "/3mf.go")
 	})
-	r.floor("X5", 3)
+	r.floor("X5", 2)
 }
 
 func elemPath(v Val) string {
@@ -335,7 +336,9 @@ func checkDXF(ctx *Ctx, r *Report) {
 			callers := refsTo(ctx, fn)
 			helper := len(callers) > 0
 			for _, c := range callers {
-				if _, isCall := c.ins.(*ssa.Call); !isCall || !inModule(c.in) {
+				_, isCall := c.ins.(*ssa.Call)
+				_, isGo := c.ins.(*ssa.Go) // a named consumer started with `go d.consume(...)`
+				if !(isCall || isGo) || !inModule(c.in) {
 					helper = false
 				}
 			}
@@ -613,7 +616,26 @@ func checkSVG(ctx *Ctx, r *Report) {
 	r.check("X3", "SVG.Line|both-endpoints-folded-into-min-and-max", lfn.Pos(), okFold, "min/max are updated with both endpoints of every line;"+detail)
 	r.check("X3", "SVG.Line|first-line-initialises-the-extent", lfn.Pos(), okFirst, "the running box starts from the first line's endpoints, not from the zero vector (a drawing away from the origin would be shifted and its canvas enlarged);"+detail)
 	// the sink passes (l[0], l[1])
-	if g := closureOf(ctx, "render", "writeSVG"); g != nil {
+	// (the goroutine of writeSVG, or a per-segment closure it hands to a shared streaming helper)
+	var sinks []*ssa.Function
+	for f := range ssautil.AllFunctions(ctx.Prog) {
+		if f.Parent() == nil || !inModule(f) || f.Pkg == nil || !strings.HasSuffix(f.Pkg.Pkg.Path(), "/render") || ctx.isControlPos(f.Pos()) {
+			continue
+		}
+		calls := false
+		allInstrs(f, func(_ *ssa.BasicBlock, ins ssa.Instruction) {
+			if c, ok := ins.(*ssa.Call); ok {
+				if g := c.Call.StaticCallee(); g != nil && g.Name() == "Line" && g.Signature.Recv() != nil && strings.HasSuffix(g.Signature.Recv().Type().String(), "render.SVG") {
+					calls = true
+				}
+			}
+		})
+		if calls {
+			sinks = append(sinks, f)
+		}
+	}
+	sort.Slice(sinks, func(i, j int) bool { return sinks[i].Pos() < sinks[j].Pos() })
+	for _, g := range sinks {
 		ev := newEval(ctx, "Line", "Save")
 		ev.evalRoot(g)
 		ok := false
